@@ -722,6 +722,8 @@ func (c *Check) fixedC10() []*plan.Plan {
 			{Op: "Apply", Tree: "t0", Opt: "o0"}, {Op: "Apply", Tree: "t0", Opt: "o0"},
 			{Op: "Apply", Tree: "t1", Opt: "o0"}, {Op: "Apply", Tree: "t2", Opt: "o1"},
 			{Op: "Reader", Doc: "d0", Opt: "o0"}, {Op: "File", Doc: "d0", Opt: "o1"},
+			{Op: "File", Doc: "d0", Opt: "o1", FS: &plan.FSPlan{Kind: "missing"}}, {Op: "File", Doc: "d0", Opt: "o1", FS: &plan.FSPlan{Kind: "dir"}},
+			{Op: "File", Doc: "d0", Opt: "o1", FS: &plan.FSPlan{Kind: "trunc", At: 100}}, {Op: "File", Doc: "d0", Opt: "o1", FS: &plan.FSPlan{Kind: "empty"}},
 			{Op: "URL", Doc: "d0", Opt: "o1", URL: "http://example.com/fetched/page/3", Net: &np},
 			{Op: "URL", Doc: "d0", Opt: "o2", URL: "http://example.com/fetched/page/4", Net: &npReset},
 			{Op: "URL", Doc: "d0", Opt: "o1", URL: "http://example.com/fetched/page/5", Net: &np},
@@ -777,7 +779,11 @@ func (c *Check) randC10(r *gen.Rand, run int, seed uint64) *plan.Plan {
 			case 6:
 				ops = append(ops, plan.Op{Op: "Reader", Doc: fmt.Sprintf("d%d", r.Intn(nd)), Opt: opt, Reader: gen.RandReader(r, 1000, r.Bool(), true)})
 			case 7:
-				ops = append(ops, plan.Op{Op: "File", Doc: fmt.Sprintf("d%d", r.Intn(nd)), Opt: opt})
+				fop := plan.Op{Op: "File", Doc: fmt.Sprintf("d%d", r.Intn(nd)), Opt: opt}
+				if r.Bool() {
+					fop.FS = gen.RandFS(r, 1000)
+				}
+				ops = append(ops, fop)
 			default:
 				di := r.Intn(nd)
 				tmo := gen.Pick(r, gen.Timeouts)
